@@ -290,6 +290,10 @@ func extractConditions(condJSON *simplejson.Json) (pipeline.MatchConditions, err
 			conditions = append(conditions, condition)
 			continue
 		}
+
+		// a number, bool, null or object is not a condition: refusing it is the only safe reading (dropping it
+		// silently makes an `and` selector match every event)
+		return nil, fmt.Errorf("can't parse %v as string or list of strings for field %q", obj, field)
 	}
 
 	return conditions, nil
